@@ -48,6 +48,7 @@ type FuncContract struct {
 	CodecDir  string
 	Fuel      int
 	Opaque    map[string]bool
+	Recursive map[string]bool
 	Fn        *ssa.Function
 	Set       *Set
 }
@@ -353,12 +354,18 @@ func (fc *FuncContract) clause(word, rest string) error {
 		default:
 			return fmt.Errorf("unknown loop clause %s", parts[1])
 		}
-	case "opaque":
+	case "opaque", "recursive":
+		// opaque F: spec function F is never unfolded in this contract's clauses.
+		// recursive F: a top-level call of F is unfolded once, calls nested inside unfolded bodies stay uninterpreted.
 		for _, n := range splitTop(rest) {
 			if fc.Opaque == nil {
 				fc.Opaque = map[string]bool{}
+				fc.Recursive = map[string]bool{}
 			}
 			fc.Opaque[strings.TrimSpace(n)] = true
+			if word == "recursive" {
+				fc.Recursive[strings.TrimSpace(n)] = true
+			}
 		}
 	case "specfuel":
 		n, err := strconv.Atoi(rest)
@@ -428,6 +435,7 @@ type Env struct {
 	specDepth int
 	Fuel      int
 	Opaque    map[string]bool
+	Recursive map[string]bool
 	// Own: the clause belongs to the contract of the function under verification (definitional axioms are added)
 	Own   bool
 	axOut *[]*Term
@@ -644,7 +652,13 @@ func (e *Env) eval(x ast.Expr) TV {
 		case sym.SliceV:
 			et := base.T.Underlying().(*types.Slice).Elem()
 			if b.Obj == nil {
-				bad("index of nil slice")
+				// reading a nil slice is outside the meaning of the clause (it is guarded by the surrounding
+				// implication); give an unconstrained element
+				w, _ := sym.IsByteLike(et)
+				if w == 0 {
+					bad("index of nil slice")
+				}
+				return TV{V: sym.Scalar{T: e.Fx.Cx.Fresh("nilelem", BV(w))}, T: et}
 			}
 			p := sym.PtrV{Nil: False, Obj: b.Obj, Path: append(append(sym.Path(nil), b.Path...), sym.PathEl{Field: -1, Index: Add(b.Off, idx)})}
 			return TV{V: e.Fx.Load(e.state(), p, et), T: et}
@@ -793,6 +807,19 @@ func (e *Env) binary(n *ast.BinaryExpr) TV {
 	return TV{V: r, T: rt}
 }
 
+// uninterpreted: spec functions whose body is just panic("uninterpreted") are never unfolded.
+func uninterpreted(fn *ssa.Function) bool {
+	if len(fn.Blocks) == 0 {
+		return true
+	}
+	for _, in := range fn.Blocks[0].Instrs {
+		if _, ok := in.(*ssa.Panic); ok {
+			return true
+		}
+	}
+	return false
+}
+
 func isNilTV(t TV) bool {
 	b, ok := t.T.(*types.Basic)
 	return ok && b.Kind() == types.UntypedNil
@@ -820,13 +847,25 @@ func (e *Env) call(n *ast.CallExpr) TV {
 			// spec.F(args) == <body of F unfolded (nested calls per fuel / opaque list)>; clauses of callee contracts
 			// used at call sites stay uninterpreted.
 			v := e.Fx.OpaqueApplySt(e.state(), fn, args)
-			if e.Own && e.specDepth == 0 {
+			if e.Own && !uninterpreted(fn) && (!e.Opaque[sel.Sel.Name] || e.Recursive[sel.Sel.Name]) {
 				fuel := e.Fuel
 				if fuel == 0 {
 					fuel = 1
 				}
-				un := e.Fx.EvalPure(fn, args, e.state(), fuel, e.Opaque)
+				// nested calls of `recursive` functions left uninterpreted get their own one-level unfolding
+				var pending []func()
+				un := e.Fx.EvalPureCB(fn, args, e.state(), fuel, e.Opaque, func(f2 *ssa.Function, a2 []sym.Value, r2 sym.Value) {
+					if e.Recursive[f2.Name()] {
+						pending = append(pending, func() {
+							u2 := e.Fx.EvalPure(f2, a2, e.state(), fuel, e.Opaque)
+							e.addAxiom(e.Fx.EqV(r2, u2))
+						})
+					}
+				})
 				e.addAxiom(e.Fx.EqV(v, un))
+				for _, p := range pending {
+					p()
+				}
 			}
 			var rt types.Type
 			if r := fn.Signature.Results(); r.Len() == 1 {
@@ -1060,7 +1099,7 @@ func (e *Env) registerQ(iv string, t types.Type, lo, hi *Term, body ast.Expr) {
 	for k, v := range e.Vars {
 		vars[k] = v
 	}
-	snap := &Env{Fx: e.Fx, St: e.St.Clone(), Old: e.Old, Vars: vars, Set: e.Set, InOld: e.InOld, Skol: e.Skol, Owner: e.Owner, Assume: true, Fuel: e.Fuel, Opaque: e.Opaque, Own: e.Own}
+	snap := &Env{Fx: e.Fx, St: e.St.Clone(), Old: e.Old, Vars: vars, Set: e.Set, InOld: e.InOld, Skol: e.Skol, Owner: e.Owner, Assume: true, Fuel: e.Fuel, Opaque: e.Opaque, Recursive: e.Recursive, Own: e.Own}
 	if e.InOld && e.Old != nil {
 		snap.St = e.Old
 	}
